@@ -358,6 +358,7 @@ func (e *Env) eval(t *Term) Val {
 		return Val{K: TFloat, F: float64(a(0).I)}
 	case "f2i":
 		f := a(0).F
+		e.recAtom("rnd:f2i", f, false) // discontinuous: which rounding is applied where is part of the signature
 		if math.IsNaN(f) || math.IsInf(f, 0) || math.Abs(f) > 1e18 {
 			return Val{K: TInt, I: 0}
 		}
@@ -529,12 +530,16 @@ func (e *Env) evalCall(t *Term) Val {
 	case "math.Pow":
 		return F(math.Pow(f(0), f(1)))
 	case "math.Ceil":
+		e.recAtom("rnd:ceil", f(0), false)
 		return F(math.Ceil(f(0)))
 	case "math.Floor":
+		e.recAtom("rnd:floor", f(0), false)
 		return F(math.Floor(f(0)))
 	case "math.Trunc":
+		e.recAtom("rnd:trunc", f(0), false)
 		return F(math.Trunc(f(0)))
 	case "math.Round":
+		e.recAtom("rnd:round", f(0), false)
 		return F(math.Round(f(0)))
 	case "math.Min":
 		return F(math.Min(f(0), f(1)))
